@@ -34,12 +34,15 @@ struct Doc {
 fn documents() -> Vec<Doc> {
   // the last two are stale imports of the very class that is unresolved: from a module that exists
   // but does not export it, and from a module that does not exist
-  let imports_menu: [(&str, &str); 5] = [
+  let imports_menu: [(&str, &str); 7] = [
     ("import { A } from Other", "A"),
     ("import { B } from Other", "B"),
     ("import { Bar } from Lib", "Bar"),
     ("import { Foo } from Other", "Foo"),
     ("import { Foo } from Missing.Mod", "Foo"),
+    // imports that span several lines (wrapped member list as the formatter prints it; `from` on its own line)
+    ("import {\n  A,\n  B\n} from Other", "A"),
+    ("import { Bar }\n  from Lib", "Bar"),
   ];
   let bodies: [(&str, &str); 3] = [
     ("expr", "class Main {\n  function f(): int = Foo.bar()\n}\n"),
@@ -64,6 +67,12 @@ fn documents() -> Vec<Doc> {
     vec![3, 2],
     vec![4, 0],
     vec![2, 4],
+    vec![5],
+    vec![6],
+    vec![5, 6],
+    vec![6, 5],
+    vec![0, 5],
+    vec![5, 2],
   ];
   for order in &orders {
     let n = order.len();
